@@ -11,6 +11,19 @@ import (
 
 // CanonicalPath 获取合法的path
 func CanonicalPath(p string) string {
+	// path.Clean can leave a blank at the end ("/a /b/.." -> "/a ") that
+	// the next call would trim; repeat until nothing changes, so that
+	// CanonicalPath(CanonicalPath(p)) == CanonicalPath(p).
+	for {
+		np := canonicalPathOnce(p)
+		if np == p {
+			return np
+		}
+		p = np
+	}
+}
+
+func canonicalPathOnce(p string) string {
 	p = strings.ToLower(strings.TrimSpace(p))
 
 	if p == "" {
